@@ -86,7 +86,7 @@ def make_corpus(dst):
         n += 1
     try:
         from vlib import schemagen
-        for i, (xml, _m) in enumerate(schemagen.sample_schemas(24, common.seed() * 1000 + 9)):
+        for i, (xml, _m) in enumerate(schemagen.sample_schemas(24, common.seed() * 1000 + 9, allow_include=False, allow_options=False)):
             if len(xml) < 40000:
                 with open(os.path.join(dst, "g%04d" % i), "wb") as f:
                     f.write(xml.encode() + b"\0\0")
